@@ -180,7 +180,7 @@ SPEC_BUILTINS = {
 
 
 # ------------------------------------------------------------------ count axioms (Venn-region encoding)
-def count_axioms(st: State, quantified: bool = False, max_conds: int = 16):
+def count_axioms(st: State, quantified: bool = False, max_conds: int = 16, meta: list | None = None):
     """Facts relating the count terms of a path: for the conditions c_1..c_k counted over the same index
     range, every feasible Boolean combination (atom) gets a non-negative cardinality; the atoms partition the
     range; each count is the sum of its atoms; a non-empty atom has a witness index; explicit index terms
@@ -240,6 +240,8 @@ def count_axioms(st: State, quantified: bool = False, max_conds: int = 16):
             if len(path) == len(pidx) + 1 and all(str(x) == str(y) for x, y in zip(path, pidx)):
                 explicit.append(path[-1])
         for n, a in zip(ns, atoms):
+            if meta is not None:
+                meta.append((n, (lambda idx, _a=a, _f=atom_at: _f(_a, idx)), hi))
             w = fresh_int("w_atom")
             out.append(z3.Implies(n > 0, z3.And(w >= 0, w < hi, atom_at(a, w))))
             for t in explicit:
@@ -248,6 +250,37 @@ def count_axioms(st: State, quantified: bool = False, max_conds: int = 16):
                 j = z3.Int(fresh_name("j"))
                 out.append(z3.Implies(n == 0, z3.ForAll([j], z3.Implies(z3.And(j >= 0, j < hi), z3.Not(atom_at(a, j))))))
     return out
+
+
+def _small_range_facts(meta, bound: int = 5) -> list:
+    """Restriction to ranges of at most `bound` elements, with the emptiness facts instantiated at every index of such a
+    range (complete for it): any model of the restricted query is a model of the full one."""
+    out = [hi <= bound for hi in {h.get_id(): h for _n, _a, h in meta}.values()]
+    for n, atom, hi in meta:
+        for j in range(bound):
+            out.append(z3.Implies(z3.And(n == 0, j < hi), z3.Not(atom(z3.IntVal(j)))))
+    return out
+
+
+def _model_respects_counts(model, meta, limit: int = 300):
+    """True: every region the model makes empty (n = 0) really holds no index of the model's range; False: some index
+    falls in it (the model is spurious); None: not checkable (range too large / not a number)."""
+    if model is None:
+        return None
+    for n, atom, hi in meta:
+        try:
+            nv = model.eval(n, model_completion=True).as_long()
+            hv = model.eval(hi, model_completion=True).as_long()
+        except Exception:
+            return None
+        if nv != 0:
+            continue
+        if hv > limit:
+            return None
+        for j in range(max(hv, 0)):
+            if z3.is_true(model.eval(atom(z3.IntVal(j)), model_completion=True)):
+                return False
+    return True
 
 
 def _has_quantifier(t) -> bool:
@@ -501,17 +534,35 @@ def _discharge(name: str, st: State, goal, timeout_ms: int, pi: int) -> OblResul
     key = (len(st.counts), len(st.pc))
     cached = getattr(st, "_ax_cache", None)
     if cached is not None and cached[0] == key:
-        ax = cached[1]
+        ax, meta = cached[1], cached[2]
     else:
-        ax = count_axioms(st)
-        st._ax_cache = (key, ax)
+        meta = []
+        ax = count_axioms(st, meta=meta)
+        st._ax_cache = (key, ax, meta)
     status, backend, model, detail = smt.prove(hyps + ax, goal, timeout_ms)
+    if status == "undecided" and meta:
+        # the solver gave up (typically quantified facts + unbounded ranges): a counter-model with small ranges, if one
+        # exists, is found quickly and is a genuine counter-model of the full query (it satisfies every hypothesis)
+        small = _small_range_facts(meta)
+        st3, be3, m3, _d3 = smt.prove(hyps + ax + small, goal, timeout_ms)
+        if st3 == "failed" and _model_respects_counts(m3, meta) is True:
+            return OblResult(name, "failed", be3 + "+small", time.time() - t0, detail, m3, pi)
     if status == "failed" and st.counts:
-        # retry with the quantified form of the emptiness facts before believing a counter-model
-        ax2 = count_axioms(st, quantified=True)
-        status2, backend2, model2, detail2 = smt.prove(hyps + ax2, goal, timeout_ms)
-        if status2 != "failed":
-            status, backend, model, detail = status2, backend2 + "+q", model2, detail2
+        # the ground count axioms say an empty region has no element among the EXPLICIT index terms only; before a
+        # counter-model is believed it must also respect the quantified emptiness facts: check them in the model itself
+        # (finite: the model fixes the range), else retry with the quantified axioms
+        ok = _model_respects_counts(model, meta)
+        if ok is None:
+            # look for a small counter-model (ranges of at most 8 elements), which can be checked exhaustively
+            small = _small_range_facts(meta)
+            st3, be3, m3, _d3 = smt.prove(hyps + ax + small, goal, timeout_ms)
+            if st3 == "failed" and _model_respects_counts(m3, meta) is True:
+                ok, model, backend = True, m3, be3 + "+small"
+        if ok is not True:
+            ax2 = count_axioms(st, quantified=True)
+            status2, backend2, model2, detail2 = smt.prove(hyps + ax2, goal, timeout_ms)
+            if status2 != "failed":
+                status, backend, model, detail = status2, backend2 + "+q", model2, detail2
     return OblResult(name, status, backend, time.time() - t0, detail, model, pi)
 
 
